@@ -150,6 +150,18 @@ structure InputOk (querySize keySize : Nat) (valueSize : Option Nat) (dim : Int)
     BroadcastTo (e' ++ [1]) v full
   size_value : ∀ n, valueSize = some n → v.getLast? = some n
 
+/-- The scores CARRY the sequence axis: `key`, or the mask the scores are filled with, has the full length
+`T = full[i]` at the sequence axis `i` (documented shapes: all of key, value and mask have it).  Axis `i` of
+`key` is axis `key.dim() - 2 - i` of the mask counted from its last one.  `check_input` does NOT test this:
+it accepts a key and a mask of size 1 there against longer values, and `forward` then returns the SUM of the
+values (see `attendSeqB`); the tensor-level model describes the code only under this guard. -/
+def seqAxisCarried (dim : Int) (k : List Nat) (mask : Option (List Nat)) (full : List Nat) : Bool :=
+  let i := seqAxis dim k.length
+  k.getD i 1 == full.getD i 1 ||
+    match mask with
+    | none => false
+    | some ms => axisR ms (k.length - 2 - i) == full.getD i 1
+
 /-- The conditions whose failure is reported BEFORE any broadcasting is attempted
 (`ValueError`; `RuntimeError` in `MultiHeadedAttention`). -/
 def RanksSizesDimOk (querySize keySize : Nat) (dim : Int) (q k v : List Nat) : Prop :=
